@@ -73,6 +73,8 @@ pub fn tapped_build(log: &mut Log, items: &[Kv], set: bool, geo: Option<(usize, 
     verif::set_geometry(geo);
     verif::start_tap();
     let mut b = Builder::memory();
+    // the capacity actually in use (a changed default geometry must not look like a violation)
+    let cells = { let (r, c) = verif::last_geometry(); let _ = cells; r * c };
     for (k, v) in items {
         if set {
             b.add(k).unwrap();
